@@ -59,15 +59,22 @@ class Lane:
             w.stop()
         self.workers.clear()
 
-    def run(self, plan, engine="jit", op_timeout=45.0, confirm_timeout=150.0, hashseed=0, confirm=True):
-        """Run a plan; wall-clock never decides alone: a timeout is re-examined by a solo replay in a fresh worker
-        with a longer budget, and only a second expiry is reported as a hang."""
+    def run(self, plan, engine="jit", op_timeout=30.0, confirm_timeout=120.0, hashseed=0, confirm=True,
+            line_budget=3000000):
+        """Run a plan; wall-clock never decides alone. A timeout is only a suspicion: it is re-examined (a) in the
+        interpreted engine under a deterministic line-event budget and, if that does not reproduce it, (b) by a solo
+        replay in a fresh worker with a longer wall-clock budget. Only a confirmed expiry is reported as a hang."""
         w = self.worker(engine, hashseed)
         jr = w.run(plan, op_timeout=op_timeout)
         if jr["end"] == "harness":
             raise HarnessError("executor failed: %s" % jr.get("stderr"))
         if jr["end"] == "hang" and confirm:
             self.counters["hang_suspects"] += 1
+            k = jr["at"]
+            if engine == "jit" and line_budget and k is not None:
+                if self.hangs(plan, "py-linebudget", upto=k, line_budget=line_budget, timeout=confirm_timeout):
+                    jr["confirmed"] = "py-linebudget"
+                    return jr
             w = self.fresh(engine, hashseed)
             jr2 = w.run(plan, op_timeout=confirm_timeout)
             if jr2["end"] == "harness":
@@ -75,9 +82,24 @@ class Lane:
             if jr2["end"] != "hang":
                 self.counters["hang_unconfirmed"] += 1
             else:
-                jr2["confirmed"] = True
+                jr2["confirmed"] = "%s-wallclock" % engine
             return jr2
         return jr
+
+    def hangs(self, plan, mode, upto=None, line_budget=3000000, timeout=120.0):
+        """Does some op of the plan fail to return? mode 'py-linebudget': interpreted engine, deterministic line-event
+        clock; otherwise compiled engine under a short wall-clock budget (used while minimising only)."""
+        p = dict(plan)
+        if upto is not None:
+            p["ops"] = plan["ops"][:upto + 1]
+        if mode == "py-linebudget":
+            p["cfg"] = dict(plan.get("cfg", {}), line_budget=int(line_budget))
+            jr = self.worker("py").run(p, op_timeout=timeout)
+            if jr["end"] == "hang":
+                return True
+            return any(o is not None and o.get("st") == "linebudget" for o in jr["obs"])
+        jr = self.worker("jit").run(p, op_timeout=min(timeout, 15.0))
+        return jr["end"] == "hang"
 
 
 _LANE = None
@@ -101,14 +123,23 @@ def same_failure(v, target):
 
 def minimise(spec, lane, plan, target, budget_s=120.0):
     deadline = time.monotonic() + budget_s
-    fast = dict(confirm=False, op_timeout=20.0) if target["oracle"].endswith(".hang") else {}
+    is_hang = target["oracle"].endswith(".hang")
 
-    def fails(cand):
-        try:
-            vs, _ = spec.evaluate(lane, cand, **fast)
-        except HarnessError:
-            return False
-        return any(same_failure(v, target) for v in vs)
+    if is_hang:
+        mode = target.get("confirmed", "jit-wallclock")
+
+        def fails(cand):
+            try:
+                return lane.hangs(cand, mode)
+            except HarnessError:
+                return False
+    else:
+        def fails(cand):
+            try:
+                vs, _ = spec.evaluate(lane, cand)
+            except HarnessError:
+                return False
+            return any(same_failure(v, target) for v in vs)
 
     # 1. cut everything after the failing op (the oracle stops at the first failure)
     at = target.get("at")
@@ -116,13 +147,14 @@ def minimise(spec, lane, plan, target, budget_s=120.0):
     if at is not None and at + 1 < len(plan["ops"]):
         cand = dict(plan)
         cand["ops"] = plan["ops"][:at + 1]
-        if fails(cand):
+        if is_hang or fails(cand):
             small = cand
-    max_tests = 12 if fast else 400
+    wallclock_hang = is_hang and not target.get("confirmed", "").startswith("py-linebudget")
+    max_tests = 8 if wallclock_hang else 400
     small, t1 = shrink.ddmin_ops(small, fails, deadline=deadline, max_tests=max_tests)
     t2 = 0
     cands = getattr(spec.world, "shrink_candidates", None)
-    if cands is not None and not fast:
+    if cands is not None and not wallclock_hang:
         small, t2 = shrink.greedy(small, cands, fails, deadline=deadline)
         small, t3 = shrink.ddmin_ops(small, fails, deadline=deadline, max_tests=100)
         t2 += t3
@@ -131,11 +163,17 @@ def minimise(spec, lane, plan, target, budget_s=120.0):
 
 def write_replay(spec, lane, plan, target, orig_len, tests, meta):
     os.makedirs(REPLAYS, exist_ok=True)
-    vs, jrs = spec.evaluate(lane, plan)
-    v = next((x for x in vs if same_failure(x, target)), target)
+    if target["oracle"].endswith(".hang"):
+        v = dict(target)
+        v["at"] = len(plan["ops"]) - 1
+        jrs = []
+    else:
+        vs, jrs = spec.evaluate(lane, plan)
+        v = next((x for x in vs if same_failure(x, target)), target)
     doc = {
         "property": target["prop"], "oracle": v["oracle"], "at": v.get("at"), "msg": v.get("msg"),
         "seed": meta.get("seed"), "base_seed": meta.get("base_seed"), "index": meta.get("index"),
+        "confirmed": v.get("confirmed"),
         "tier": meta.get("tier"), "original_ops": orig_len, "minimised_ops": len(plan["ops"]),
         "shrink_tests": tests, "observation_digest": plan_mod.digest([j["obs"] for j in jrs]),
         "repo_source_hash": boot.source_hash(), "plan": plan,
@@ -302,6 +340,28 @@ def run_check(prop, tier, base_seed, opts):
 
     agg = {"runs": 0, "ops": 0, "stats": {}, "sigs": set(), "violations": [], "known": [], "samples": [],
            "t_exec": 0.0, "digests": {}}
+    # replays of defects that were repaired ('fixed:' entries) are re-executed first: they must stay quiet
+    import glob
+    reg = sorted(glob.glob(os.path.join(VERIF, "findings", "%s-*.json" % prop)))
+    if reg and not opts.get("no_regress"):
+        rl = Lane(opts.get("root"))
+        try:
+            for path in reg:
+                with open(path) as f:
+                    doc = json.load(f)
+                vs, _ = spec.evaluate(rl, doc["plan"])
+                if vs and match_known(vs[0], known) is None:
+                    v = vs[0]
+                    agg["violations"].append({"prop": prop, "oracle": v["oracle"], "at": v.get("at"),
+                                              "msg": "a repaired defect is back: " + str(v.get("msg")),
+                                              "seed": doc.get("seed"), "replay": path,
+                                              "ops": len(doc["plan"]["ops"]), "orig_ops": doc.get("original_ops", 0)})
+        except HarnessError as e:
+            print("HARNESS-ERROR: regression replay failed: %s" % e)
+            return 2
+        finally:
+            rl.close()
+    agg["stats"]["regression_replays"] = len(reg)
     harness = None
     next_i = 0
     ctx = mp.get_context("fork")
